@@ -225,9 +225,13 @@ impl<C: ContentAddrStore> UnsealedState<C> {
             .pools
             .get(&PoolKey::new(Denom::Erg, Denom::Sym))
             .unwrap();
-        let _ = espool.swap_many(0, erg_subsidy);
-        self.pools
-            .insert(PoolKey::new(Denom::Erg, Denom::Sym), espool);
+        // unlike the other built-in pools, ERG/SYM can have been created by users before TIP-902 made it a built-in; it then
+        // holds no unowned liquidity and can be withdrawn down to nothing, and an empty pool has no price to swap at
+        if espool.lefts > 0 && espool.rights > 0 {
+            let _ = espool.swap_many(0, erg_subsidy);
+            self.pools
+                .insert(PoolKey::new(Denom::Erg, Denom::Sym), espool);
+        }
     }
 
     fn move_action_fee_multiplier(&mut self, after_tip_901: bool, action: ProposerAction) {
